@@ -18,12 +18,14 @@ Inductive vty :=
 | VPtr (cls : Z)                         (* pointer to class number cls (0 = most derived) *)
 | VFahr | VCels                          (* trivially copyable classes of 4 bytes; Cels(Fahr) converts *)
 | VWrap                                  (* trivially copyable class of 4 bytes with operator int32_t *)
-| VMv.                                   (* class with user-provided copy / move constructors *)
+| VMv                                    (* class with user-provided copy / move constructors *)
+| VRaw                                   (* trivially copyable 4-byte source {fd} *)
+| VHandle.                               (* 8-byte {fd, adopted}: Handle(const Raw&) looks, Handle(Raw&&) adopts and resets the source *)
 
 Definition vsz (t : vty) : Z :=
   match t with
   | VBool => 1 | VUInt n | VSInt n | VEnumU n | VEnumS n | VFloat n => n
-  | VPtr _ => 8 | VFahr | VCels | VWrap => 4 | VMv => 8
+  | VPtr _ => 8 | VFahr | VCels | VWrap => 4 | VMv => 8 | VRaw => 4 | VHandle => 8
   end.
 Definition trivially_copyable (t : vty) : bool := match t with VMv => false | _ => true end.
 Definition is_float (t : vty) : bool := match t with VFloat _ => true | _ => false end.
@@ -31,7 +33,7 @@ Definition is_integral (t : vty) : bool := match t with VBool | VUInt _ | VSInt 
 Definition is_enum (t : vty) : bool := match t with VEnumU _ | VEnumS _ => true | _ => false end.
 Definition vty_eqb (a b : vty) : bool :=
   match a, b with
-  | VBool, VBool | VFahr, VFahr | VCels, VCels | VWrap, VWrap | VMv, VMv => true
+  | VBool, VBool | VFahr, VFahr | VCels, VCels | VWrap, VWrap | VMv, VMv | VRaw, VRaw | VHandle, VHandle => true
   | VUInt n, VUInt m | VSInt n, VSInt m | VEnumU n, VEnumU m | VEnumS n, VEnumS m
   | VFloat n, VFloat m | VPtr n, VPtr m => n =? m
   | _, _ => false
@@ -67,7 +69,15 @@ Definition conv (U T : vty) (v : Z) : Z :=
   | VFloat _ => v
   | VPtr c => (match U with VPtr c' => v + base_off c - base_off c' | _ => v end)
   | VCels => (match U with VFahr => Z.quot ((v - 32) * 5) 9 | _ => v end)
-  | VFahr | VWrap | VMv => v
+  | VFahr | VWrap | VMv | VRaw | VHandle => v
+  end.
+
+(* T(u) for an lvalue u ([mvd] = false) or T(std::move(u)) ([mvd] = true): they differ for one
+   pair of the universe only *)
+Definition convm (mvd : bool) (U T : vty) (v : Z) : Z :=
+  match T, U with
+  | VHandle, VRaw => wrapu 4 v + (if mvd then 2 ^ 32 else 0)
+  | _, _ => conv U T v
   end.
 
 (* IEEE-754 bits of a small non-negative integer (exact below 2^mant) *)
@@ -96,7 +106,8 @@ Definition in_range (U : vty) (v : Z) : Prop :=
   | VPtr _ => 0 <= v < 2 ^ 40
   | VFahr | VCels => - 2 ^ 28 <= v < 2 ^ 28      (* (f - 32) * 5 does not overflow *)
   | VWrap => - 2 ^ 31 <= v < 2 ^ 31 - 1
-  | VMv => 0 <= v < 2 ^ 31
+  | VMv | VRaw => 0 <= v < 2 ^ 31
+  | VHandle => 0 <= v < 2 ^ 33
   end.
 
 (* ---------- source forms ---------- *)
@@ -134,10 +145,14 @@ Definition dispatch (f : form) (rvalue : bool) (T U : vty) : path :=
 
 (* what ends up in the vector: one byte string per stored object; [n]: the number of
    objects the parameter holds (for a range: its size) *)
+(* the items of a generated range are temporaries: T(item) sees an rvalue whatever the range's
+   own value category *)
+Definition is_generated (f : form) : bool := match f with FGenerated => true | _ => false end.
 Definition stored (f : form) (rvalue : bool) (T U : vty) (src : list Z) (n : nat) : list (list Z) :=
   match dispatch f rvalue T U with
   | PMemcpy => map (repr U) (firstn n src)
-  | _ => map (fun v => repr T (conv U T v)) (firstn n src)
+  | PCopy => map (fun v => repr T (convm (is_generated f) U T v)) (firstn n src)
+  | PMove => map (fun v => repr T (convm true U T v)) (firstn n src)
   end.
 (* how often each source item has been moved from *)
 Definition moved_from (f : form) (rvalue : bool) (T U : vty) (src : list Z) (n : nat) : list Z :=
@@ -151,7 +166,7 @@ Definition vty_of_code (c : nat) : vty :=
   match c with
   | 0 => VBool | 1 => VUInt 1 | 2 => VSInt 1 | 3 => VUInt 2 | 4 => VSInt 2 | 5 => VUInt 4 | 6 => VSInt 4
   | 7 => VUInt 8 | 8 => VSInt 8 | 9 => VFloat 4 | 10 => VFloat 8 | 11 => VEnumU 1 | 12 => VEnumS 4
-  | 13 => VPtr 0 | 14 => VPtr 2 | 15 => VPtr 1 | 16 => VFahr | 17 => VCels | 18 => VWrap | 19 => VMv
+  | 13 => VPtr 0 | 14 => VPtr 2 | 15 => VPtr 1 | 16 => VFahr | 17 => VCels | 18 => VWrap | 19 => VMv | 20 => VRaw | 21 => VHandle
   | _ => VSInt 1
   end%nat.
 Definition form_of_code (c : nat) : form :=
@@ -164,5 +179,5 @@ Definition construct_case (tc uc fc : nat) (rv : bool) (n : nat) (src : list Z) 
   (* moves are only observable on the instrumented class *)
   (* ... and not on the temporaries of a generated range *)
   (stored f rv T U src n,
-   if vty_eqb U VMv && negb (match f with FGenerated => true | _ => false end)
+   if (vty_eqb U VMv || (vty_eqb U VRaw && vty_eqb T VHandle)) && negb (match f with FGenerated => true | _ => false end)
    then moved_from f rv T U src n else repeat (-1) (length src)).
